@@ -77,11 +77,8 @@ def _split_case(args):
         paths = cli.split(path_in=src, path_out=d / "out", split_events=size,
                           skip_initial_empty_image=skip,
                           skip_final_empty_image=skip, ret_out_paths=True)
-        nparts = math.ceil(n / size)
-        if len(paths) != nparts:
-            out.append(violation(W, "wrong-part-count", case,
-                                 f"{len(paths)} parts, expected {nparts}",
-                                 tags))
+        # (how many parts there are and where they are cut is the tool's
+        # business; the property constrains their union and their size)
         keep = np.ones(n, bool)
         if skip and zero_first:
             keep[0] = False
@@ -104,10 +101,19 @@ def _split_case(args):
             if not any("vf-log" in k and list(v) == ["a", "b"]
                        for k, v in r["__logs__"].items()):
                 out.append(violation(W, "log-missing", case, p.name, tags))
-        # expected content of part i: events [i*size, (i+1)*size) & keep
+        # the parts, in order, hold the kept events exactly once and in
+        # order: part i holds the next lens[i] of them
+        kept = np.flatnonzero(keep)
+        if sum(lens) != len(kept):
+            out.append(violation(
+                W, "wrong-part-data", case,
+                f"the parts hold {sum(lens)} events in total ({lens}), "
+                f"the measurement has {len(kept)} to distribute",
+                dict(tags, feat="count")))
+        pos = 0
         for i, r in enumerate(parts):
-            idx = np.arange(i * size, min((i + 1) * size, n))
-            idx = idx[keep[idx]]
+            idx = kept[pos:pos + lens[i]]
+            pos += lens[i]
             for f in FEATS:
                 if f == "index_online" and f not in r:
                     continue
@@ -116,7 +122,9 @@ def _split_case(args):
                         out.append(violation(W, "feature-missing", case,
                                              f"part {i + 1}: {f}", tags))
                     continue
-                if f == "trace":
+                if len(idx) != lens[i]:
+                    ok = False      # more events in the parts than exist
+                elif f == "trace":
                     ok = all(gen.arrays_equal(r[f][t], ev[f][t][idx])
                              for t in ev[f])
                 else:
